@@ -149,8 +149,41 @@ def _worker_batch(args):
     return out
 
 
+def _crash_result(prop, seed, r, sig):
+    run_seed = core.H(seed, prop, r)
+    return {'run': r, 'run_seed': run_seed,
+            'violation': {'invariant': 'process-crash',
+                          'detail': 'the process executing this run died with signal %s (fatal error inside the code under '
+                                    'test, e.g. a segfault in a compiled assembler); replay re-executes it in a child process' % (sig,),
+                          'signature': {'invariant': 'process-crash', 'what': 'process-crash', 'signal': str(sig)}},
+            'stats': {}, 'known_hits': {}, 'nontrivial': False, 'state': None, 'sim_time': 0, 'checks': 0,
+            'digest': core.digest(['crash', r, str(sig)]), 'nsteps': 0,
+            'record': {'__run_seed__': [run_seed]}, 'trace': ['process died with signal %s' % (sig,)]}
+
+
+def _choices_from(record):
+    if record is not None and list(record.keys()) == ['__run_seed__']:
+        return core.Choices(record['__run_seed__'][0])      # regenerate from the seed
+    return core.Choices(recorded=record)
+
+
+def _exec_for_replay(arg):
+    prop, tier, record, params = arg
+    return execute(prop, _choices_from(record), tier, collect_known=True, params=params)
+
+
 def _replay_fails(prop, tier, record, invariant, signature, params=None):
-    ch = core.Choices(recorded=record)
+    if invariant == 'process-crash':
+        from . import pool
+        st, payload = pool.run_isolated(_exec_for_replay, (prop, tier, record, params), timeout=900)
+        if st == 'crashed':
+            res = _crash_result(prop, 0, 0, payload)
+            res['record'] = record
+            return True, None, res
+        if st == 'ok':
+            return False, None, payload
+        return False, None, None
+    ch = _choices_from(record)
     try:
         res = execute(prop, ch, tier, collect_known=True, params=params)
     except Exception:
@@ -252,27 +285,35 @@ def run_check(prop, tier, seed, nruns, workers=None, batch=None, wall_cap=3000,
     idx_batches = [list(range(i, min(nruns, i + batch))) for i in range(0, nruns, batch)]
     results = list(pre_results or [])
     harness_errors = []
-    ctx_mp = mp.get_context('fork')
     deadline = t0 + wall_cap
-    stopped_early = False
-    with cf.ProcessPoolExecutor(max_workers=workers, mp_context=ctx_mp) as ex:
-        futs = [ex.submit(_worker_batch, (prop, seed, tier, b, int(wall_cap), params))
-                for b in idx_batches]
-        try:
-            for f in cf.as_completed(futs, timeout=max(1, deadline - time.time())):
-                try:
-                    for r in f.result():
-                        if 'harness_error' in r:
-                            harness_errors.append(r)
-                        else:
-                            results.append(r)
-                except Exception as e:  # worker died
-                    harness_errors.append({'run': None, 'harness_error': 'worker failed: %r' % (e,)})
-        except cf.TimeoutError:
-            stopped_early = True
-            harness_errors.append({'run': None, 'harness_error': 'wall cap %ss reached' % wall_cap})
-            for f in futs:
-                f.cancel()
+    from . import pool
+    jobs = [(prop, seed, tier, b, int(wall_cap), params) for b in idx_batches]
+    crashed_batches = []
+    for (bi, status, payload) in pool.run_jobs(_worker_batch, jobs, workers, deadline=deadline, job_timeout=wall_cap):
+        if status == 'ok':
+            for r in payload:
+                (harness_errors if 'harness_error' in r else results).append(r)
+        elif status == 'error':
+            harness_errors.append({'run': None, 'harness_error': payload})
+        elif status == 'crashed':
+            crashed_batches.append((bi, payload))
+        elif status == 'timeout':
+            harness_errors.append({'run': idx_batches[bi][0], 'harness_error': 'batch starting at run %d exceeded %ss' % (idx_batches[bi][0], wall_cap)})
+        elif status == 'deadline':
+            harness_errors.append({'run': None, 'harness_error': 'wall cap %ss reached before batch %d ran' % (wall_cap, bi)})
+    # a worker died (fatal signal in the code under test?): re-run its batch run by run, each in its own process
+    for (bi, why) in crashed_batches:
+        singles = [(prop, seed, tier, [r], int(wall_cap), params) for r in idx_batches[bi]]
+        for (k, status, payload) in pool.run_jobs(_worker_batch, singles, min(workers, len(singles)),
+                                                  deadline=deadline, job_timeout=min(wall_cap, 900)):
+            r = idx_batches[bi][k]
+            if status == 'ok':
+                for rr in payload:
+                    (harness_errors if 'harness_error' in rr else results).append(rr)
+            elif status == 'crashed':
+                results.append(_crash_result(prop, seed, r, payload))
+            else:
+                harness_errors.append({'run': r, 'harness_error': 'isolated re-run of run %d: %s %r' % (r, status, payload)})
     results.sort(key=lambda r: r['run'])
     return finish(prop, tier, seed, results, harness_errors, t0, eng,
                   min_budget=min_budget, min_wall=min_wall, params=params,
@@ -324,13 +365,19 @@ def finish(prop, tier, seed, results, harness_errors, t0, eng, min_budget=300, m
         for g in list(groups.values())[:3]:
             r = min(g, key=lambda r: (r.get('nsteps', 0), r['run']))
             jobs.append((r, (prop, tier, r['record'], r['violation'], min_budget, min_wall, params)))
-        with cf.ProcessPoolExecutor(max_workers=len(jobs), mp_context=mp.get_context('fork')) as ex:
-            futs = [(r, ex.submit(_minimise_job, j)) for r, j in jobs]
-            for r, f in futs:
-                try:
-                    mini = f.result(timeout=min_wall + 120)
-                except Exception as e:
-                    mini = {'record': r['record'], 'used': 0, 'stable': False,
+        from . import pool
+        minis = {}
+        todo = [(k, j) for k, (r, j) in enumerate(jobs) if r['violation']['invariant'] != 'process-crash']
+        if todo:
+            for (k2, status, payload) in pool.run_jobs(_minimise_job, [j for _, j in todo], len(todo),
+                                                       job_timeout=min_wall + 180):
+                if status == 'ok':
+                    minis[todo[k2][0]] = payload
+        if True:
+            for k, (r, j) in enumerate(jobs):
+                mini = minis.get(k)
+                if mini is None:
+                    mini = {'record': r['record'], 'used': 0, 'stable': r['violation']['invariant'] == 'process-crash',
                             'res': {'violation': r['violation'], 'trace': r.get('trace'), 'digest': r['digest']}}
                 path = write_replay(prop, seed, tier, r['run'], r['run_seed'], mini, r['violation'], params)
                 replay_paths.append(path)
